@@ -389,4 +389,99 @@ theorem every_label_reachable :
   obtain ⟨w, _, p, hp, hpf⟩ := every_field_reachable f hf
   exact ⟨w.1, w.2, p, hp, by rw [hpf, hl]⟩
 
+/-! ### 4. the check functions themselves, regenerated (tools/extract/translate_verify.go)
+
+`checkRAs`, `checkMTUs`, `checkCaptivePortal`, `checkPrefixes` and `checkRoutes` are re-translated from
+the current source text into the list of problems they return; each equals the model's function of the
+same name — for every pair of RAs / option lists of any length. -/
+
+theorem checkRAs_equiv (a b : RA) : Gen.Trans.checkRAs a b = Model.checkRAs a b := by
+  simp [Gen.Trans.checkRAs, Model.checkRAs, checkDurations_equiv, and_assoc]
+
+theorem checkMTUs_equiv (want got : List Opt) : Gen.Trans.checkMTUs want got = Model.checkMTUs want got := by
+  unfold Gen.Trans.checkMTUs Model.checkMTUs
+  cases firstMTU want <;> cases firstMTU got <;> simp
+
+theorem checkCaptivePortal_equiv (want got : List Opt) :
+    Gen.Trans.checkCaptivePortal want got = Model.checkCaptivePortal want got := by
+  unfold Gen.Trans.checkCaptivePortal Model.checkCaptivePortal
+  cases firstPortal want <;> cases firstPortal got <;> simp
+
+/-- the model's loops of `checkPrefixes` as `flatMap`s -/
+private theorem prefixInner_flatMap (a : IP × Nat × Dur × Dur) (bs : List (IP × Nat × Dur × Dur)) :
+    checkPrefixInner a bs = bs.flatMap (fun b => checkPrefixInner a [b]) := by
+  induction bs with
+  | nil => simp [checkPrefixInner]
+  | cons b bs ih => rw [List.flatMap_cons, ← ih]; simp [checkPrefixInner]
+
+private theorem prefixOuter_flatMap (bs as : List (IP × Nat × Dur × Dur)) :
+    checkPrefixOuter bs as = as.flatMap (fun a => checkPrefixInner a bs) := by
+  induction as with
+  | nil => simp [checkPrefixOuter]
+  | cons a as ih => rw [List.flatMap_cons, ← ih, checkPrefixOuter]
+
+theorem checkPrefixes_equiv (want got : List Opt) :
+    Gen.Trans.checkPrefixes want got = Model.checkPrefixes want got := by
+  unfold Gen.Trans.checkPrefixes Model.checkPrefixes
+  simp only [prefixOuter_flatMap]
+  cases h1 : pickPI want with
+  | nil => simp
+  | cons a as =>
+    cases h2 : pickPI got with
+    | nil => simp
+    | cons b bs =>
+      simp only [List.length_cons, List.isEmpty_cons, Bool.or_self, Bool.false_eq_true, if_false]
+      have hne : ¬ ((as.length + 1 = 0) ∨ (bs.length + 1 = 0)) := by omega
+      rw [if_neg hne, List.append_nil]
+      congr 1
+      funext x
+      rw [List.append_nil, prefixInner_flatMap x (b :: bs)]
+      congr 1
+      funext y
+      simp [checkPrefixInner, equalLifetimes_equiv]
+
+private theorem routeInner_flatMap (a : IP × Nat × Nat × Dur) (bs : List (IP × Nat × Nat × Dur)) :
+    checkRouteInner a bs = bs.flatMap (fun b => checkRouteInner a [b]) := by
+  induction bs with
+  | nil => simp [checkRouteInner]
+  | cons b bs ih => rw [List.flatMap_cons, ← ih]; simp [checkRouteInner]
+
+private theorem routeOuter_flatMap (bs as : List (IP × Nat × Nat × Dur)) :
+    checkRouteOuter bs as = as.flatMap (fun a => checkRouteInner a bs) := by
+  induction as with
+  | nil => simp [checkRouteOuter]
+  | cons a as ih => rw [List.flatMap_cons, ← ih, checkRouteOuter]
+
+theorem checkRoutes_equiv (want got : List Opt) :
+    Gen.Trans.checkRoutes want got = Model.checkRoutes want got := by
+  unfold Gen.Trans.checkRoutes Model.checkRoutes
+  simp only [routeOuter_flatMap]
+  cases h1 : pickRI want with
+  | nil => simp
+  | cons a as =>
+    cases h2 : pickRI got with
+    | nil => simp
+    | cons b bs =>
+      simp only [List.length_cons, List.isEmpty_cons, Bool.or_self, Bool.false_eq_true, if_false]
+      have hne : ¬ ((as.length + 1 = 0) ∨ (bs.length + 1 = 0)) := by omega
+      rw [if_neg hne, List.append_nil]
+      congr 1
+      funext x
+      rw [List.append_nil, routeInner_flatMap x (b :: bs)]
+      congr 1
+      funext y
+      simp only [checkRouteInner, equalLifetimes_equiv, List.append_nil]
+      by_cases h : x.1 ≠ y.1 ∨ x.2.1 ≠ y.2.1
+      · simp [h]
+      · simp [h]
+
+/-- non-trivial instance: one own prefix against the same prefix with a shorter preferred lifetime and
+    another prefix — one report, the same on both sides -/
+example :
+    let own := [Opt.pi ⟨true, false, 1⟩ 64 true true (24 * hour) (4 * hour)]
+    let got := [Opt.pi ⟨true, false, 2⟩ 64 true true (24 * hour) (1 * hour), Opt.pi ⟨true, false, 1⟩ 64 true true (24 * hour) (1 * hour)]
+    Gen.Trans.checkPrefixes own got = [{ field := .piPreferred, details := some (⟨true, false, 1⟩, 64) }] ∧
+    Model.checkPrefixes own got = [{ field := .piPreferred, details := some (⟨true, false, 1⟩, 64) }] := by
+  decide
+
 end Corerad.Props.TransC12
